@@ -370,12 +370,24 @@ func runC08(c *core.Ctx) {
 				bounded := false
 				for _, ifi := range core.Ifs(fn) {
 					if ifi.Block() == s || s.Dominates(ifi.Block()) {
-						if condInvolvesField(ifi.Cond, maxF) {
-							bounded = true
+						cd := core.CondOf(ifi)
+						for _, side := range [][2]ssa.Value{{cd.X, cd.Y}, {cd.Y, cd.X}} {
+							if side[0] == nil || side[1] == nil {
+								continue
+							}
+							if _, isLen := lenArg(stripConv(side[0])); !isLen {
+								continue
+							}
+							// the bound is the configured maximum itself, not maximum plus something
+							if f, _ := core.FieldOf(stripConv(side[1])); f == maxF && maxF != nil {
+								if _, isLoad := stripConv(side[1]).(*ssa.UnOp); isLoad {
+									bounded = true
+								}
+							}
 						}
 					}
 				}
-				c.Check(bounded, "R3", "loop-bounded/"+fc.t.Obj().Name(), p.InstrPos(start), "the loop is bounded by the configured maximum", "a decoder loop that accumulates input is not bounded by the configured maximum frame length")
+				c.Check(bounded, "R3", "loop-bounded/"+fc.t.Obj().Name(), p.InstrPos(start), "the accumulated length is compared with the configured maximum itself", "a decoder loop that accumulates input is not bounded by the configured maximum frame length itself (no bound, or the maximum widened by an extra term: oversized frames are delivered)")
 			}
 		}
 	}
@@ -463,6 +475,10 @@ func runC08(c *core.Ctx) {
 			}
 		}
 	}
+
+	// ---- R7 the exact-length reader really reports early end
+	c.Rule("R7", "the exact-length reader counts every byte it hands out and maps source EOF with bytes still owed to io.ErrUnexpectedEOF, whatever count came with the EOF", 1)
+	runC08ExactReader(c)
 
 	// ---- R5 read errors
 	for _, fn := range p.Funcs {
@@ -735,4 +751,133 @@ func calleeName(in ssa.Instruction) string {
 		return o.Name()
 	}
 	return ""
+}
+
+func runC08ExactReader(c *core.Ctx) {
+	p := c.P
+	ctor := p.PkgFunc("utils", "ExactReader")
+	c.Instance("R7")
+	if ctor == nil {
+		c.Unk("R7", "exact-reader", "", "utils.ExactReader not found (decoders must not hand a bare io.LimitReader downstream - see R4)")
+		return
+	}
+	var rt *types.Named
+	core.AllInstrs(ctor, func(in ssa.Instruction) {
+		if ret, ok := in.(*ssa.Return); ok && len(ret.Results) == 1 {
+			if mi, ok := ret.Results[0].(*ssa.MakeInterface); ok {
+				if pt, ok := mi.X.Type().(*types.Pointer); ok {
+					rt, _ = types.Unalias(pt.Elem()).(*types.Named)
+				}
+			}
+		}
+	})
+	rd := p.Method(rt, "Read")
+	if rt == nil || rd == nil {
+		c.Unk("R7", "exact-reader", p.Pos(ctor.Pos()), "concrete reader type / Read method not resolved")
+		return
+	}
+	c.FuncsSeen[p.QName(rd)] = true
+	var remF *types.Var
+	for _, f := range fieldsOfNamed(rt) {
+		if isIntT(f.Type()) {
+			remF = f
+		}
+	}
+	var inner ssa.Instruction
+	core.AllInstrs(rd, func(in ssa.Instruction) {
+		if cc := core.CallCommon(in); cc != nil && cc.IsInvoke() && cc.Method.Name() == "Read" {
+			inner = in
+		}
+	})
+	if remF == nil || inner == nil {
+		c.Unk("R7", "exact-reader", p.Pos(rd.Pos()), "remaining-count field / inner Read not resolved")
+		return
+	}
+	var nv, errv ssa.Value
+	for _, ref := range *inner.(ssa.Value).Referrers() {
+		if ex, ok := ref.(*ssa.Extract); ok {
+			if ex.Index == 0 {
+				nv = ex
+			} else {
+				errv = ex
+			}
+		}
+	}
+	// (i) the count is subtracted from the remaining field after the inner read
+	var dec *ssa.Store
+	for _, st := range core.StoresToField(rd, remF) {
+		if b, ok := stripConv(st.Val).(*ssa.BinOp); ok && b.Op == token.SUB && core.Dominates(inner, st) {
+			for v := range taintBack(b.Y) {
+				if nv != nil && (v == nv || sameErr(v, nv)) {
+					dec = st
+				}
+			}
+		}
+	}
+	c.Check(dec != nil, "R7", "exact-reader/counts-bytes", p.Pos(rd.Pos()), "remaining -= n after every inner read", "the exact-length reader does not subtract the bytes read from its remaining count on every read")
+	// (ii) EOF mapping: a store/return of io.ErrUnexpectedEOF guarded by err == io.EOF and remaining > 0 evaluated AFTER the decrement,
+	//      and not conditional on the count n
+	var mapAt ssa.Instruction
+	core.AllInstrs(rd, func(in ssa.Instruction) {
+		check := func(v ssa.Value) {
+			if ld, ok := core.Unwrap(v).(*ssa.UnOp); ok {
+				if g, ok := ld.X.(*ssa.Global); ok && g.Name() == "ErrUnexpectedEOF" {
+					mapAt = in
+				}
+			}
+		}
+		switch x := in.(type) {
+		case *ssa.Store:
+			check(x.Val)
+		case *ssa.Return:
+			for _, r := range x.Results {
+				check(r)
+			}
+		case *ssa.Phi:
+			for _, e := range x.Edges {
+				check(e)
+			}
+		}
+	})
+	c.Instance("R7")
+	if mapAt == nil {
+		c.Bad("R7", "exact-reader/maps-early-eof", p.Pos(rd.Pos()), "the reader never yields io.ErrUnexpectedEOF: a source that ends early looks like a complete frame")
+		return
+	}
+	okOrder, condOnN, remCond := true, false, false
+	for _, ifi := range core.Ifs(rd) {
+		// conditions that govern the mapping
+		governs := false
+		for _, succ := range ifi.Block().Succs {
+			if core.EdgeDominates(ifi.Block(), succ, mapAt.Block()) {
+				governs = true
+			}
+		}
+		if phi, ok := mapAt.(*ssa.Phi); ok && !governs {
+			for _, pb := range phi.Block().Preds {
+				if pb == ifi.Block() || ifi.Block().Dominates(pb) {
+					governs = true
+				}
+			}
+		}
+		if !governs || !core.Dominates(inner, ifi) {
+			continue // only tests made after the inner read decide the mapping
+		}
+		for v := range taintBack(ifi.Cond) {
+			if nv != nil && (v == nv || sameErr(v, nv)) {
+				condOnN = true
+			}
+			if ld, ok := v.(*ssa.UnOp); ok {
+				if f, _ := core.FieldOf(ld); f == remF {
+					remCond = true
+					if dec != nil && !core.Dominates(dec, ld) {
+						okOrder = false
+					}
+				}
+			}
+		}
+	}
+	_ = errv
+	c.Check(remCond && okOrder, "R7", "exact-reader/maps-early-eof", p.InstrPos(mapAt), "EOF is mapped to io.ErrUnexpectedEOF when bytes are still owed after this read was counted", "the early-EOF test looks at the remaining count before this read was subtracted (or not at all): a complete last frame whose bytes arrive together with io.EOF is rejected, or a truncated one accepted")
+	c.Check(!condOnN, "R7", "exact-reader/eof-mapping-unconditional", p.InstrPos(mapAt), "the mapping does not depend on how many bytes came with the EOF", "source EOF is mapped to io.ErrUnexpectedEOF only for some byte counts of the final read: a reader that returns its last bytes together with io.EOF passes a truncated body off as complete")
 }
